@@ -156,5 +156,5 @@ def smooth_round(x, mu=0.01):
         by the user. The values returned will not be exact integers. However, they
         will be smooth and the derivatives will be continuous.
     """
-    floor_x = jnp.floor(x)
+    floor_x = jnp.floor(jnp.real(x))
     return floor_x + 0.5 * (1 + jnp.tanh((x - floor_x - 0.5) / mu))
